@@ -212,9 +212,17 @@ def run_property(pid, tier="quick", seed=0):
                 print("   " + u["detail"].replace("\n", "\n   ")[:1500])
 
     wall = time.time() - t0
+    level = spec.get("level", "proof")
+    total_checks = sum((kres.get(o["harness"]) or {}).get("checks", {}).get("total", 0) for o in kx_obl)
     ev = {
-        "property_id": pid, "tier": tier, "seed": seed, "level": "proof",
+        "property_id": pid, "tier": tier, "seed": seed, "level": level,
         "coverage": {
+            # generic keys (required for the model_checking level, informative otherwise); all measured on this run:
+            "evaluations": total_checks + len(vx_obligations),
+            "distinct_nontrivial": len(discharged) + len(bounded_ok),
+            "rule": "evaluations = CBMC checks evaluated over all Kani harnesses of this run (as reported by Kani) + Verus functions verified; "
+                    "distinct_nontrivial = distinct obligations (Verus functions / Kani harnesses) that returned a verdict of success with a non-zero "
+                    "check count and all cover statements satisfied",
             "obligations": n_obl,
             "discharged": len(discharged),
             "checker_cmd": "verus <unit>.rs --output-json --time --rlimit %s (units: %s); %s" % (
